@@ -18,6 +18,7 @@ for path in sorted(glob.glob(os.path.join(V, "props", "C*.py"))):
         CHECKS[os.path.basename(path)[:-3]] = mod.MANIFEST
 
 NA = {}
+HOOK_COMMITS = [l.split()[0] for l in open(os.path.join(V, "hooks.txt")) if l.strip() and not l.startswith("#")]
 
 def main():
     checks = []
@@ -48,7 +49,7 @@ def main():
             "guard": "verif",
             "enable": "go build -tags verif (the harness module in /verif/harness replaces github.com/zerx-lab/wordZero by /repo)",
             "baseline_off_cmd": "cd /repo && GOFLAGS=-mod=mod GOPROXY=off go test -vet=off -count=1 -timeout 25m ./pkg/... ./test/...",
-            "source_commits": ["d2ffefd"],
+            "source_commits": HOOK_COMMITS,
             "add_only": True,
         },
         "engines": [
